@@ -19,10 +19,17 @@ warnings.simplefilter("ignore")
 WORK = os.environ["VERIF_WORK"]
 
 
+TYPES = "enum e0 { E0A, E0B = 5 };\nenum n0 { N0A = -2, N0B };\nstruct s0 { int a; };\n"
+
+
+def vkind(ct):
+    return "ptr" if ct.endswith("*") else "struct" if ct.startswith("struct") else "int"
+
+
 def c_source(desc):
-    out = []
+    out = [TYPES]
     for k, (ct, lo, hi) in enumerate(desc["vars"]):
-        out.append("%s var_%d = 0;" % (ct, k))
+        out.append("%s var_%d = {0};" % (ct, k) if vkind(ct) == "struct" else "%s var_%d = 0;" % (ct, k))
     for f, (kind, v) in enumerate(desc["fns"]):
         ct = desc["vars"][v][0]
         if kind == "get":
@@ -33,7 +40,7 @@ def c_source(desc):
 
 
 def c_cdef(desc):
-    out = []
+    out = [TYPES]
     for c, k in enumerate(desc["consts"]):
         out.append("#define K_%d %d" % (c, k))
     for k, (ct, lo, hi) in enumerate(desc["vars"]):
@@ -97,6 +104,26 @@ def canon(env, ffi, x):
     return ["other", type(x).__name__]
 
 
+def to_c(ffi, ct, z):
+    """the Python value to store z into a variable / parameter of C type ct"""
+    k = vkind(ct)
+    if k == "ptr":
+        return ffi.cast(ct, z)
+    if k == "struct":
+        return {"a": z}
+    return z
+
+
+def from_c(ffi, ct, x):
+    """integer content of what reading a variable of C type ct gave"""
+    k = vkind(ct)
+    if k == "ptr" and isinstance(x, ffi.CData):
+        return int(ffi.cast("uintptr_t", x))
+    if k == "struct" and isinstance(x, ffi.CData):
+        return int(x.a)
+    return x
+
+
 def attempt(env, ffi, thunk):
     try:
         return canon(env, ffi, thunk())
@@ -109,8 +136,12 @@ def attempt(env, ffi, thunk):
 
 def run_case(env, case):
     desc = env.desc
+    vct = [v[0] for v in desc["vars"]]
+
+    def ctof(i):
+        return vct[i] if i < len(vct) else "int"
     for v, z in enumerate(case["m0"]):
-        setattr(env.guard, "var_%d" % v, z)
+        setattr(env.guard, "var_%d" % v, to_c(env.gffi, vct[v], z))
     libs = []
     for m in case["modes"]:
         ffi = env.ffi_inline if m == "inline" else env.ffi_ool
@@ -123,18 +154,19 @@ def run_case(env, case):
         kind, l = op[0], op[1]
         ffi, lib = libs[l]
         if kind == "read":
-            r = attempt(env, ffi, lambda: getattr(lib, "var_%d" % op[2]))
+            r = attempt(env, ffi, lambda: from_c(ffi, ctof(op[2]), getattr(lib, "var_%d" % op[2])))
         elif kind == "write":
-            r = attempt(env, ffi, lambda: setattr(lib, "var_%d" % op[2], op[3]))
+            r = attempt(env, ffi, lambda: setattr(lib, "var_%d" % op[2], to_c(ffi, ctof(op[2]), op[3])))
         elif kind == "fetch":
             r = attempt(env, ffi, lambda: getattr(lib, "fn_%d" % op[2]))
         elif kind == "call":
             f = op[2]
             isget = f < len(desc["fns"]) and desc["fns"][f][0] == "get"
+            fct = ctof(desc["fns"][f][1]) if f < len(desc["fns"]) else "int"
             if isget:
-                r = attempt(env, ffi, lambda: getattr(lib, "fn_%d" % f)())
+                r = attempt(env, ffi, lambda: from_c(ffi, fct, getattr(lib, "fn_%d" % f)()))
             else:
-                r = attempt(env, ffi, lambda: getattr(lib, "fn_%d" % f)(op[3]))
+                r = attempt(env, ffi, lambda: from_c(ffi, fct, getattr(lib, "fn_%d" % f)(to_c(ffi, fct, op[3]))))
         elif kind == "const":
             r = attempt(env, ffi, lambda: getattr(lib, "K_%d" % op[2]))
         elif kind == "addr":
@@ -144,7 +176,7 @@ def run_case(env, case):
         else:
             raise ValueError(kind)
         outs.append(r)
-    final = [int(getattr(env.guard, "var_%d" % v)) for v in range(len(desc["vars"]))]
+    final = [int(from_c(env.gffi, vct[v], getattr(env.guard, "var_%d" % v))) for v in range(len(desc["vars"]))]
     # leave nothing open behind (so that a later history starts from fresh lib objects)
     for ffi, lib in libs:
         try:
